@@ -139,8 +139,10 @@ CLAIMED = {
                      'exactly there and on negative values; no SourceCatalog getter writes a field '
                      'another access reads; segment_fluxerr squares error maps of any dtype in '
                      'float; a source counts as completely masked exactly when every pixel of '
-                     'its cutout is; the segmentation image labels/slices stay coherent '
-                     'under renumbering. The defining formulas are checked bounded with an '
+                     'its cutout is; bounding box k and segment_area k are those of label k inside its '
+                     'own slices; the per-source loops of the local background and of the min / max '
+                     'indices carry no state from one row to the next; the segmentation image '
+                     'labels/slices stay coherent under renumbering. The defining formulas are checked bounded with an '
                      'exact-rational pixel-loop oracle incl. row locality.',
                 note='formulas bounded only; known finding F41 (thin-source covariance NaN)'),
     'C08': dict(engine='effects+pyvc', technique=f'{_T} (ownership of shared references, per-row '
